@@ -1006,18 +1006,30 @@ var g = &grammar{
 			expr: &actionExpr{
 				pos: position{line: 292, col: 18, offset: 9391},
 				run: (*parser).callonFieldModifier1,
-				expr: &choiceExpr{
+				expr: &seqExpr{
 					pos: position{line: 292, col: 19, offset: 9392},
-					alternatives: []interface{}{
-						&litMatcher{
-							pos:        position{line: 292, col: 19, offset: 9392},
-							val:        "required",
-							ignoreCase: false,
+					exprs: []interface{}{
+						&choiceExpr{
+							pos: position{line: 292, col: 19, offset: 9392},
+							alternatives: []interface{}{
+								&litMatcher{
+									pos:        position{line: 292, col: 19, offset: 9392},
+									val:        "required",
+									ignoreCase: false,
+								},
+								&litMatcher{
+									pos:        position{line: 292, col: 32, offset: 9405},
+									val:        "optional",
+									ignoreCase: false,
+								},
+							},
 						},
-						&litMatcher{
-							pos:        position{line: 292, col: 32, offset: 9405},
-							val:        "optional",
-							ignoreCase: false,
+						&notExpr{
+							pos: position{line: 292, col: 19, offset: 9392},
+							expr: &ruleRefExpr{
+								pos:  position{line: 292, col: 19, offset: 9392},
+								name: "IdentifierPart",
+							},
 						},
 					},
 				},
@@ -1205,6 +1217,13 @@ var g = &grammar{
 											val:        "oneway",
 											ignoreCase: false,
 										},
+										&notExpr{
+											pos: position{line: 321, col: 44, offset: 10291},
+											expr: &ruleRefExpr{
+												pos:  position{line: 321, col: 44, offset: 10291},
+												name: "IdentifierPart",
+											},
+										},
 										&ruleRefExpr{
 											pos:  position{line: 321, col: 53, offset: 10300},
 											name: "__",
@@ -1312,10 +1331,22 @@ var g = &grammar{
 					expr: &choiceExpr{
 						pos: position{line: 349, col: 22, offset: 11099},
 						alternatives: []interface{}{
-							&litMatcher{
-								pos:        position{line: 349, col: 22, offset: 11099},
-								val:        "void",
-								ignoreCase: false,
+							&seqExpr{
+								pos: position{line: 349, col: 22, offset: 11099},
+								exprs: []interface{}{
+									&litMatcher{
+										pos:        position{line: 349, col: 22, offset: 11099},
+										val:        "void",
+										ignoreCase: false,
+									},
+									&notExpr{
+										pos: position{line: 349, col: 22, offset: 11099},
+										expr: &ruleRefExpr{
+											pos:  position{line: 349, col: 22, offset: 11099},
+											name: "IdentifierPart",
+										},
+									},
+								},
 							},
 							&ruleRefExpr{
 								pos:  position{line: 349, col: 31, offset: 11108},
@@ -1441,48 +1472,60 @@ var g = &grammar{
 			expr: &actionExpr{
 				pos: position{line: 374, col: 17, offset: 11682},
 				run: (*parser).callonBaseTypeName1,
-				expr: &choiceExpr{
+				expr: &seqExpr{
 					pos: position{line: 374, col: 18, offset: 11683},
-					alternatives: []interface{}{
-						&litMatcher{
-							pos:        position{line: 374, col: 18, offset: 11683},
-							val:        "bool",
-							ignoreCase: false,
+					exprs: []interface{}{
+						&choiceExpr{
+							pos: position{line: 374, col: 18, offset: 11683},
+							alternatives: []interface{}{
+								&litMatcher{
+									pos:        position{line: 374, col: 18, offset: 11683},
+									val:        "bool",
+									ignoreCase: false,
+								},
+								&litMatcher{
+									pos:        position{line: 374, col: 27, offset: 11692},
+									val:        "byte",
+									ignoreCase: false,
+								},
+								&litMatcher{
+									pos:        position{line: 374, col: 36, offset: 11701},
+									val:        "i16",
+									ignoreCase: false,
+								},
+								&litMatcher{
+									pos:        position{line: 374, col: 44, offset: 11709},
+									val:        "i32",
+									ignoreCase: false,
+								},
+								&litMatcher{
+									pos:        position{line: 374, col: 52, offset: 11717},
+									val:        "i64",
+									ignoreCase: false,
+								},
+								&litMatcher{
+									pos:        position{line: 374, col: 60, offset: 11725},
+									val:        "double",
+									ignoreCase: false,
+								},
+								&litMatcher{
+									pos:        position{line: 374, col: 71, offset: 11736},
+									val:        "string",
+									ignoreCase: false,
+								},
+								&litMatcher{
+									pos:        position{line: 374, col: 82, offset: 11747},
+									val:        "binary",
+									ignoreCase: false,
+								},
+							},
 						},
-						&litMatcher{
-							pos:        position{line: 374, col: 27, offset: 11692},
-							val:        "byte",
-							ignoreCase: false,
-						},
-						&litMatcher{
-							pos:        position{line: 374, col: 36, offset: 11701},
-							val:        "i16",
-							ignoreCase: false,
-						},
-						&litMatcher{
-							pos:        position{line: 374, col: 44, offset: 11709},
-							val:        "i32",
-							ignoreCase: false,
-						},
-						&litMatcher{
-							pos:        position{line: 374, col: 52, offset: 11717},
-							val:        "i64",
-							ignoreCase: false,
-						},
-						&litMatcher{
-							pos:        position{line: 374, col: 60, offset: 11725},
-							val:        "double",
-							ignoreCase: false,
-						},
-						&litMatcher{
-							pos:        position{line: 374, col: 71, offset: 11736},
-							val:        "string",
-							ignoreCase: false,
-						},
-						&litMatcher{
-							pos:        position{line: 374, col: 82, offset: 11747},
-							val:        "binary",
-							ignoreCase: false,
+						&notExpr{
+							pos: position{line: 374, col: 18, offset: 11683},
+							expr: &ruleRefExpr{
+								pos:  position{line: 374, col: 18, offset: 11683},
+								name: "IdentifierPart",
+							},
 						},
 					},
 				},
@@ -2606,6 +2649,30 @@ var g = &grammar{
 				chars:      []rune{',', ';'},
 				ignoreCase: false,
 				inverted:   false,
+			},
+		},
+		{
+			name: "IdentifierPart",
+			pos:  position{line: 549, col: 1, offset: 17000},
+			expr: &choiceExpr{
+				pos: position{line: 549, col: 19, offset: 17018},
+				alternatives: []interface{}{
+					&ruleRefExpr{
+						pos:  position{line: 549, col: 19, offset: 17018},
+						name: "Letter",
+					},
+					&ruleRefExpr{
+						pos:  position{line: 549, col: 28, offset: 17027},
+						name: "Digit",
+					},
+					&charClassMatcher{
+						pos:        position{line: 549, col: 36, offset: 17035},
+						val:        "[._]",
+						chars:      []rune{'.', '_'},
+						ignoreCase: false,
+						inverted:   false,
+					},
+				},
 			},
 		},
 		{
